@@ -85,6 +85,15 @@ def impl_sim(job):
             itf.py_prep_deterministic_simulation()
             if rec["uniform"]:
                 itf.py_set_dt(float(tp[1] - tp[0]))
+            # another model is prepared (and, for every other record, simulated) in between: the trajectory must be that
+            # of the interface handed to py_simulate, not of whatever was prepared last (module-level solver state)
+            from bioscrape.types import Model as _Model
+            decoy = _Model(species=["S1", "S2", "S3", "Q"][: max(2, len(species))], reactions=[(["S1"], ["S2"], "massaction", {"k": 7.5}), ([], ["S1"], "massaction", {"k": 3.25})],
+                           initial_condition_dict={"S1": 9.0, "S2": 1.0})
+            ditf = ModelCSimInterface(decoy)
+            ditf.py_prep_deterministic_simulation()
+            if rec["variant"] % 2 == 1:
+                py_simulate_model(np.linspace(0, 1, 4), Model=decoy, stochastic=False)
             res = DeterministicSimulator().py_simulate(itf, tp)
             arr = np.array(res.py_get_result(), dtype=float)
             s2i = m2.get_species2index()
